@@ -44,7 +44,11 @@ def cx_configs(tier):
     if tier == "quick":
         return [build.Cfg("g++", "20", "O0", extra=lim_g), build.Cfg("clang++", "20", "O0", extra=lim_c)]
     return [build.Cfg("g++", "20", "O0", extra=lim_g), build.Cfg("g++", "23", "plain", extra=lim_g),
-            build.Cfg("clang++", "20", "O0", extra=lim_c), build.Cfg("clang++", "23", "plain", extra=lim_c),
+            build.Cfg("clang++", "20", "O0", extra=lim_c),
+            # clang 14 / c++2b: the build layer normally switches std::is_constant_evaluated() off (DESIGN 2.1), which also
+            # switches off what sbepp needs for a constexpr strlen()/assign_string(const char*); this leg is about
+            # constant evaluation, so the feature stays on here (both branches guarded by it are valid at run time too)
+            build.Cfg("clang++", "23", "plain", defs=("SBEPP_HAS_IS_CONSTANT_EVALUATED=1",), extra=lim_c),
             build.Cfg("g++", "20", "O0", defs=("SBEPP_HAS_RANGES=0",), extra=lim_g)]
 
 
@@ -93,8 +97,13 @@ def cx_leg(rep):
         if m is None:
             rep.violation("abort", "c14_cx_driver", "%s: driver died rc=%s: %s" % (tag, rc, out[-800:]), {"config": str(cfg)})
             continue
-        if int(m.group(1)) != exp:
-            rep.inconc("%s: %s constant-evaluated cells observed, the scope has %d" % (tag, m.group(1), exp))
+        exp_here = exp
+        if "CXNOTE strlen-not-constant-evaluated" in out:
+            # two of the four strlen-family cells per content are outside what the configuration promises
+            exp_here = exp - 2 * sum(3 ** n for n in range(maxn + 1))
+            rep.count("constexpr_configs_without_is_constant_evaluated")
+        if int(m.group(1)) != exp_here:
+            rep.inconc("%s: %s constant-evaluated cells observed, the scope has %d" % (tag, m.group(1), exp_here))
         rep.evaluation(int(m.group(1)))
         rep.count("constexpr_cells", int(m.group(1)))
         for om in re.finditer(r"^CXOP (\S+) (\d+)$", out, re.M):
